@@ -47,19 +47,19 @@ def r1_constant(ctx):
               f"prediction types {unhandled} have no handler (exhaustiveness over PredictionType {members})", construct="exhaustive dispatch")
     if unhandled and tail:
         handled[unhandled[0]] = tail[0].value
-    want = {"MAX": "np.nanmax(values, axis=0)", "MEAN": "np.nanmean(values, axis=0)", "LAST": "values[sorted_indices[0]]",
-            "LAST_KNOWN": "values_sorted_desc[last_non_nan_ix_per_ft, range(values.shape[1])]"}
+    from ..astq import Canon
+    cn = Canon(f.node)
+    order = "sorted(range(len($1)), key=$1.__getitem__, reverse=True)"
+    want = {"MAX": "np.nanmax($2, axis=0)", "MEAN": "np.nanmean($2, axis=0)", "LAST": f"$2[{order}[0]]",
+            "LAST_KNOWN": f"$2[{order}][(~np.isnan($2[{order}])).argmax(axis=0), range($2.shape[1])]"}
+    alt = {"LAST": {f"$2[{order}][0]"}, "MAX": {"np.nanmax($2, 0)"}, "MEAN": {"np.nanmean($2, 0)"}}
     for m in members:
         if m not in want:
             ctx.unknown("C20.R1", f, f.node, f"new prediction type {m}: no documented estimator to compare with", construct=f"prediction type {m}")
             continue
-        got = U(handled.get(m)) if handled.get(m) is not None else None
-        ctx.check(got == want[m], "C20.R1", f, handled.get(m) or f.node, f"{m} -> {want[m]}", f"prediction type {m} returns `{got}`; documented `{want[m]}`", construct=f"prediction type {m}")
-    src = U(f.node)
-    ok = "sorted_indices = sorted(range(len(times)), key=times.__getitem__, reverse=True)" in src
-    ctx.check(ok, "C20.R1", f, f.node, "visits ordered by decreasing age (input order irrelevant)", "the visits are no longer ordered by decreasing age before picking the last one", construct="age-descending order")
-    ok = "values_sorted_desc = values[sorted_indices]" in src and "last_non_nan_ix_per_ft = (~np.isnan(values_sorted_desc)).argmax(axis=0)" in src
-    ctx.check(ok, "C20.R1", f, f.node, "last known = first non-NaN in age-descending order, per feature", "LAST_KNOWN is no longer the first non-NaN value per feature in age-descending order", construct="last known index")
+        got = cn.text(handled[m]) if handled.get(m) is not None else None
+        ctx.check(got == want[m] or got in alt.get(m, ()), "C20.R1", f, handled.get(m) or f.node, f"{m} -> {want[m]}   ($1 = times, $2 = values)",
+                  f"prediction type {m} returns `{got}`; documented `{want[m]}` ($1 = times, $2 = values)", construct=f"prediction type {m}")
     g = ix.func(CA, "ConstantPredictionAlgorithm._get_individual_last_values", "C20.R1")
     ctx.check("dict(zip(features, self._get_feature_values(times, values)))" in U(g.node), "C20.R1", g, g.node, "values keyed by the feature names", "values are no longer keyed by the feature names")
     h = ix.func(CA, "ConstantPredictionAlgorithm._compute_individual_parameters", "C20.R1")
@@ -67,8 +67,8 @@ def r1_constant(ctx):
     ok = "features=model.features" in hs and "dataset.get_times_patient(individual)" in hs and "dataset.get_values_patient(individual)" in hs and "str(idx)" in hs and "idx = dataset.indices[individual]" in hs
     ctx.check(ok, "C20.R1", h, h.node, "each individual's own visits, keyed by its identifier and the model's features", "the personalisation no longer uses each individual's own visits / identifier / the model's features")
     m = ix.func("leaspy.models.constant", "ConstantModel.compute_individual_trajectory", "C20.R1")
-    ms = U(m.node)
-    ok = "values = [individual_parameters[f] for f in self.features]" in ms and "[[values] * len(timepoints)]" in ms
+    rets = Canon(m.node).returns()
+    ok = len(rets) == 1 and rets[0].replace(" ", "") in ("torch.tensor([[[$2[f]forfin$0.features]]*len($1)],dtype=torch.float32)",)
     ctx.check(ok, "C20.R1", m, m.node, "the stored values (read by the same feature names) repeated once per requested age", "the constant trajectory is no longer the stored per-feature values repeated for each requested age")
     c = ix.func(CA, "ConstantPredictionAlgorithm.__init__", "C20.R1")
     ctx.check("PredictionType(settings.parameters['prediction_type'])" in U(c.node), "C20.R1", c, c.node, "prediction type validated through the enum", "the prediction type is no longer validated through PredictionType(...)")
@@ -168,7 +168,9 @@ def r2_lme(ctx):
     ctx.check(ok, "C20.R2", p, p.node, "missing values dropped together with their ages", "missing values are no longer dropped (with their ages) before computing residuals", construct="NaN removal")
     t = readers[1]
     ts = U(t.node)
-    ok = "y = X @ (self.parameters['fe_params'] + re_params)" in ts and "X = sm.add_constant(ages_norm, prepend=True, has_constant='add')" in ts
+    trets = Canon(t.node).returns()
+    ok = len(trets) == 1 and trets[0] == ("torch.tensor(sm.add_constant((np.array($1).reshape(-1) - $0.parameters['ages_mean']) / $0.parameters['ages_std'], prepend=True, has_constant='add') "
+                                          "@ ($0.parameters['fe_params'] + re_params), dtype=torch.float32).reshape((1, -1, 1))")
     ctx.check(ok, "C20.R2", t, t.node, "trajectory = [1, age_norm] (fe + re): a straight line in age", "the LME trajectory is no longer X (fe + re)")
     ok = "re_params = np.array([individual_parameters['random_intercept'].item(), 0])" in ts and "if not self.with_random_slope_age" in ts
     ctx.check(ok, "C20.R2", t, t.node, "random slope forced to 0 when the model has none", "the random slope is not forced to 0 for an intercept-only model", construct="no-slope case")
@@ -193,5 +195,7 @@ VARIANTS = [
     V("lme-intercept-shortcut", P, "random_intercept = np.sum(residuals) / (n + cov_re_unscaled_inv.item())", "random_intercept = np.sum(residuals) / n", "C20.R2"),
     V("lme-norm-mismatch", "src/leaspy/models/lme.py", "        ) / self.parameters[\"ages_std\"]", "        )", "C20.R2"),
     V("lme-slope-kept", "src/leaspy/models/lme.py", "[individual_parameters[\"random_intercept\"].item(), 0]", "[individual_parameters[\"random_intercept\"].item(), 1]", "C20.R2"),
+    V("silent-rename-local", C, "values_sorted_desc", "vsd", None, count=3),
+    V("silent-rename-lme-local", P, "tZZ", "gram", None, count=2),
     V("constant-single-value", "src/leaspy/models/constant.py", "[[values] * len(timepoints)]", "[[values]]", "C20.R1"),
 ]
